@@ -307,7 +307,12 @@ func (sc *pubScn) pubStep(a *pubActor, c *vfClient, stepNo int) {
 	r, e, rng := sc.r, sc.w.e, sc.w.rng
 	author := a.actingUser()
 	tname := sc.nameFor(a)
-	// occasionally address the topic by a name under which the session is not attached
+	// occasionally address a group which is not a channel by its channel spelling: the session is not attached
+	// under that name (there is no such channel)
+	if sc.kind == "grp" && !a.chanSub && rng.Intn(8) == 0 {
+		tname = types.GrpToChn(sc.canon)
+		r.Hit("channel_spelling_of_plain_group")
+	}
 	content := any(fmt.Sprintf("%s#%d", c.name, stepNo))
 	if rng.Intn(3) == 0 {
 		content = map[string]any{"txt": fmt.Sprintf("%s#%d", c.name, stepNo), "fmt": []any{map[string]any{"at": 0, "len": 2, "tp": "ST"}}, "n": map[string]any{"deep": []any{1, "x", nil}}}
@@ -763,6 +768,27 @@ func pubScenario(w *vfWorld, r *vfkit.R, focus string, idx int) {
 				sc.log("%s unsubscribes through session %s -> %s, then publishes through the same session", a.role, c.name, codeStr(f))
 				r.Hit("publish_after_unsubscribe_same_session")
 				sc.pubStep(a, c, 100)
+				if kind == "p2p" {
+					// the other participant re-creates the removed subscription, its user attaches again: copies
+					// must still name the topic as each recipient addresses it
+					for _, b := range sc.actors {
+						if b.role != "peerB" {
+							continue
+						}
+						bn := sc.nameFor(b)
+						if !b.cs[0].attachState()[bn] {
+							b.cs[0].sub(bn, nil)
+						}
+						f2 := b.cs[0].set(bn, map[string]any{"sub": map[string]any{"user": a.u.uid.UserId(), "mode": "JRWPA"}})
+						w.e.vfQuiesce()
+						f3 := c.sub(name, nil)
+						w.e.vfQuiesce()
+						sc.log("peerB re-creates peerA's subscription -> %s, peerA attaches again -> %s", codeStr(f2), codeStr(f3))
+						r.Hit("p2p_subscription_recreated_by_peer")
+						sc.pubStep(b, b.cs[0], 101)
+						sc.pubStep(a, c, 102)
+					}
+				}
 			}
 			break
 		}
